@@ -308,12 +308,39 @@ def one_tree(tspec, acc, rnd, sample=False, forced=None):
                             return name  # cannot match at the start of an absolute path
                         return ".*/" + name + "(/|$)"
                     pats = [rxform(p) for p in pats]
+                    if rnd.random() < 0.3:
+                        # hand-written regexes that only work when every pattern is applied on its own: an inline flag in
+                        # the first one, a back-reference to the own first group in the second one
+                        files = sorted(os.path.basename(f)[:-3] for f in tspec["files"] if f.endswith(".py") and os.path.basename(f) != "__init__.py")
+                        dnames = sorted({os.path.basename(d) for d in dirs if d})
+                        y = rnd.choice(files) if files else "aa"
+                        x = rnd.choice(dnames) if dnames else "pkg"
+                        other_case = y.swapcase() if y.swapcase() not in files else y + "_ZZ"
+                        pats = rnd.choice([
+                            ["(?i).*/" + re.escape(x.upper()) + "$", ".*/" + re.escape(other_case) + r"\.py$"],
+                            [".*/(" + re.escape(x) + ")$", r".*/(\w)\1\.py$"],
+                            [".*/(" + re.escape(x) + "|zz_no)$", r".*/(\w+)_\1\.py$", r".*/m(\d)\1?\.py$"],
+                        ])
+                        acc.count("regex_exclusions_with_flags_or_backreferences")
             case = {"kind": "filtered", "spec": tspec, "mp": mp_rel, "use_regex": use_regex, "patterns": [p.replace(root, "<ROOT>") for p in pats], "include": include}
             HUB.case = case
             kw = {"exclusions": (), "regex_exclusions": tuple(pats)} if use_regex else {"exclusions": tuple(pats)}
             get_evaluable_architecture(root, mp_abs, **kw, **inc_kw)
             se = HUB.scan_events[-1]
             acc.evaluated()
+            # the same patterns handed over as a list and as a one-shot generator: if the scan gives an architecture
+            # at all, it is the same one
+            for form, mk in (("list", lambda: list(pats)), ("generator", lambda: (p for p in pats))):
+                kw2 = {"exclusions": (), "regex_exclusions": mk()} if use_regex else {"exclusions": mk()}
+                try:
+                    get_evaluable_architecture(root, mp_abs, **kw2, **inc_kw)
+                    alt = HUB.scan_events[-1]
+                except Exception as e:  # noqa: BLE001  (no architecture, no claim)
+                    acc.hist("pattern_container_rejected", f"{form}:{type(e).__name__}")
+                    continue
+                acc.count("scans_with_patterns_in_another_container")
+                if alt.state != se.state:
+                    HUB.violation("C08", f"patterns-as-{form}-differ-from-tuple", f"the same exclusion patterns given as a {form} build another architecture than given as a tuple", {"patterns": case["patterns"], "nodes_diff": sorted(alt.nodes ^ se.nodes), "imports_diff": sorted(alt.imps ^ se.imps)})
             # (a) monitor findings that the unfiltered scan does not show
             attribute_scan_findings(se, {"nodes": "C08", "edge-missing": "C08", "edge-extra": "C08"}, case, baseline=base)
             # (b) metamorphic relation with the unfiltered scan
@@ -392,6 +419,8 @@ def floors(acc, tier):
     for sh in ("text", "*text", "text*", "*text*"):
         if acc.hists.get("glob_shape", {}).get(sh, 0) == 0:
             why.append(f"glob shape {sh} never used in a scan")
+    if acc.counters["regex_exclusions_with_flags_or_backreferences"] < 10:
+        why.append("too few regex exclusion tuples with inline flags / back-references")
     if acc.counters["excluded_unparsable_scans"] < 30:
         why.append(f"only {acc.counters['excluded_unparsable_scans']} scans with excluded files that cannot be parsed")
     if acc.counters["patterns_with_regex_metacharacters"] == 0:
